@@ -252,6 +252,32 @@ def rule_who(ck):
             o.fail('region.%s is called with (%s, %s); the region expects (longitudes, latitudes)' % (meth, u(c.args[0]), u(c.args[1])))
 
 
+def rule_raw_coordinates(ck):
+    """every observer bins the event coordinates as they are stored: no arithmetic (wrapping, shifting, rounding) on the way
+    from the catalog accessors to the binning kernel - any such step can move a point across a cell edge for one observer only"""
+    P = ck.prog
+    ck.clause('D2')
+    for q in ('spatial_counts', 'spatial_event_probability', 'spatial_magnitude_counts', 'get_spatial_idx', 'to_dataframe', 'filter_spatial'):
+        f = P.func('csep.core.catalogs.AbstractBaseCatalog.' + q)
+        ex = Expander(P, f)
+        meth = 'get_masked' if q == 'filter_spatial' else 'get_index_of'
+        for c in [n for n in all_nodes(f) if isinstance(n, ast.Call) and isinstance(n.func, ast.Attribute) and n.func.attr == meth and len(n.args) == 2]:
+            o = ck.ob('C01-D2.raw', f, c, c)
+            got = [u(strip_shape(ex.expand(a_))) for a_ in c.args]
+            (o.ok() if got == ['self.get_longitudes()', 'self.get_latitudes()'] else
+             o.fail('region.%s receives (%s, %s): the coordinates must be the stored longitudes and latitudes themselves' % (meth, got[0][:60], got[1][:60])))
+    wrappers = coord_binners(P)
+    for q in (G + 'get_index_of', G + 'get_masked'):
+        f = P.func(q)
+        ex = Expander(P, f)
+        for c in [n for n in all_nodes(f) if isinstance(n, ast.Call) and (callee(P, f, n) == BIN or callee(P, f, n) in wrappers)]:
+            o = ck.ob('C01-D2.raw', f, c, c)
+            pa = kw(c, 'p', 0) if callee(P, f, c) == BIN else (c.args[0] if c.args else None)
+            e = strip_shape(ex.expand(pa)) if pa is not None else None
+            (o.ok() if isinstance(e, ast.Name) and getattr(e, '_param', False) else
+             o.fail('%s bins `%s`, not the coordinates it was given' % (f.short, u(e)[:70] if e is not None else '?')))
+
+
 def rule_sentinel(ck):
     P = ck.prog
     ck.clause('D3')
@@ -570,6 +596,31 @@ def rule_single_edge(ck):
                 o.fail('the coordinate wrapper bins with tol=%s' % u(tol))
             else:
                 o.ok('closed mode')
+        # single-edge branch: the upper edge e0 + dh is handed to the kernel as a second edge, so that the half-open rule and
+        # the tolerance of bin1d_vec decide it like every other edge; nothing in the wrapper compares coordinates itself
+        pts_p, edges_p = wrappers[cq][0], wrappers[cq][1]
+        N = sym.Normalizer()
+        for n in all_nodes(wf):
+            if isinstance(n, ast.If) and edges_p in u(n.test) and ('== 1' in u(n.test) or '< 2' in u(n.test) or '<= 1' in u(n.test)):
+                exw = Expander(P, wf, keep=set(wf.params))
+                kc = [c for st in n.body for c in ast.walk(st) if isinstance(c, ast.Call) and callee(P, wf, c) == BIN]
+                o = ck.ob('C01-D7.closed', wf, kc[0] if kc else 'single-edge branch', kc[0] if kc else n)
+                good = False
+                if len(kc) == 1:
+                    be = strip_shape(exw.expand(kw(kc[0], 'bins', 1)))
+                    dhp = [p_ for p_ in wf.params if p_ not in (pts_p, edges_p)]
+                    if isinstance(be, (ast.List, ast.Tuple)) and len(be.elts) == 2 and dhp:
+                        try:
+                            good = N.nf(be.elts[0]) == N.nf('%s[0]' % edges_p) and N.nf(be.elts[1]) == N.nf('%s[0] + %s' % (edges_p, dhp[0]))
+                        except Exception:
+                            good = False
+                cmp_ = [x for x in all_nodes(wf) if isinstance(x, ast.Compare) and any(isinstance(y, ast.Name) and y.id == pts_p for y in ast.walk(x))]
+                if good and not cmp_:
+                    o.ok('binned on [e0, e0 + dh]')
+                else:
+                    o.fail('a single-edge lattice is not binned on the two edges [e0, e0 + dh]%s: the upper bounding edge is then not '
+                           'decided by bin1d_vec\'s half-open rule and tolerance (a point exactly on it, or within round-off of it, '
+                           'is attributed differently from every multi-row lattice)' % (' (coordinates are compared by hand: `%s`)' % u(cmp_[0]) if cmp_ else ''))
 
 
 def rule_kernel_shared(ck):
@@ -590,5 +641,5 @@ def rule_counts_shared(ck):
     c03.rule_pure_gridding(ck)
 
 
-RULES = [rule_partition, rule_who, rule_sentinel, rule_mask_polarity, rule_midpoints, rule_lattice_step, rule_single_edge,
+RULES = [rule_partition, rule_who, rule_raw_coordinates, rule_sentinel, rule_mask_polarity, rule_midpoints, rule_lattice_step, rule_single_edge,
          rule_kernel_shared, rule_counts_shared]
